@@ -64,6 +64,28 @@ Proof.
            (proj1 C17_tables_ok) (proj1 C17_side_reids) (proj2 C17_side_reids) Hwt Hp).
 Qed.
 
+(* consequence: the printed form is unambiguous - two different instructions of a flavour
+   (another class, or the same class with other operands) never print to the same line *)
+Definition print_injective (t : list row) : Prop :=
+  forall r ops r' ops', In r t -> In r' t ->
+    well_typed r ops = true -> well_typed r' ops' = true ->
+    printable gen_banks ops = true -> printable gen_banks ops' = true ->
+    pp_instr gen_banks r ops = pp_instr gen_banks r' ops' -> r = r' /\ ops = ops'.
+
+Lemma print_injective_of_parse_print t : parse_print t -> print_injective t.
+Proof.
+  intros P r ops r' ops' Hi Hi' Hw Hw' Hp Hp' E.
+  pose proof (P r ops Hi Hw Hp) as D. pose proof (P r' ops' Hi' Hw' Hp') as D'.
+  rewrite E in D. rewrite D in D'. inversion D'. split; reflexivity.
+Qed.
+
+Theorem C17_print_injective_vanilla : print_injective gen_vanilla.
+Proof. exact (print_injective_of_parse_print _ C17_parse_print_vanilla). Qed.
+Theorem C17_print_injective_nv : print_injective gen_nv.
+Proof. exact (print_injective_of_parse_print _ C17_parse_print_nv). Qed.
+Theorem C17_print_injective_reids : print_injective gen_reids.
+Proof. exact (print_injective_of_parse_print _ C17_parse_print_reids). Qed.
+
 (* whole subroutines of any length: print every instruction, parse each line,
    encode, decode, print again — the same lines *)
 Definition stable (t : list row) : Prop :=
@@ -127,3 +149,6 @@ Print Assumptions C17_parse_print_reids.
 Print Assumptions C17_stable_vanilla.
 Print Assumptions C17_stable_nv.
 Print Assumptions C17_stable_reids.
+Print Assumptions C17_print_injective_vanilla.
+Print Assumptions C17_print_injective_nv.
+Print Assumptions C17_print_injective_reids.
